@@ -243,7 +243,7 @@ REQUEST_TIMEOUT = float(os.environ.get("VERIF_REQUEST_TIMEOUT", "6"))
 
 
 def request(req, config, tls=False, cwd=None, wfile=None, server=None, reset=True,
-            quiet=True):
+            quiet=True, rfile=None):
     """Run one request line (bytes, including what follows the first line) through the
     real GopherRequestHandler.handle.  Returns Resp.  A request that blocks longer than
     REQUEST_TIMEOUT seconds is interrupted (main thread only) and reported as exc=Hang."""
@@ -251,7 +251,8 @@ def request(req, config, tls=False, cwd=None, wfile=None, server=None, reset=Tru
     if reset:
         reset_globals()
     del _log_lines[:]
-    rfile = io.BytesIO(req)
+    if rfile is None:
+        rfile = io.BytesIO(req)
     own = wfile is None
     if own:
         wfile = io.BytesIO()
@@ -284,6 +285,39 @@ def request(req, config, tls=False, cwd=None, wfile=None, server=None, reset=Tru
             os.chdir(old)
     out = wfile.getvalue() if own else None
     return Resp(out, list(_log_lines), exc)
+
+
+def request_segmented(req, config, cuts, tls=False, gap=0.015, **kw):
+    """The same request arriving in pieces over a real socket: req[:cuts[0]], a pause, req[cuts[0]:cuts[1]], ... then the
+    client's write side is closed.  The server side reads through socket.makefile("rb") as StreamRequestHandler does, so a
+    read that does not wait for all the bytes it was asked for (read1, a bare recv) sees only what has arrived."""
+    import socket
+    import time
+    a, b = socket.socketpair()
+    rf = b.makefile("rb")
+
+    def feed():
+        prev = 0
+        try:
+            for c in list(cuts) + [len(req)]:
+                if c > prev:
+                    a.sendall(req[prev:c])
+                    prev = c
+                    time.sleep(gap)
+            a.shutdown(socket.SHUT_WR)
+        except OSError:
+            pass
+    th = threading.Thread(target=feed, daemon=True)
+    th.start()
+    try:
+        return request(b"", config, tls=tls, rfile=rf, **kw)
+    finally:
+        th.join(2)
+        for x in (rf, a, b):
+            try:
+                x.close()
+            except OSError:
+                pass
 
 
 def get_protocol(line, config, tls=False, rest=b""):
@@ -428,10 +462,10 @@ def recorder_config(root="/nonexistent-root", **kw):
     return make_config(root, "[VerifRecorder]", **kw)
 
 
-def parse_via_recorder(req, cfg, tls=False):
-    """-> (selector, search, Resp).  selector is None when no handler was consulted."""
+def parse_via_recorder(req, cfg, tls=False, cuts=None):
+    """-> (selector, search, Resp).  selector is None when no handler was consulted.  cuts: deliver the request in pieces."""
     del _rec_log[:]
-    r = request(req, cfg, tls=tls)
+    r = request(req, cfg, tls=tls) if cuts is None else request_segmented(req, cfg, cuts, tls=tls)
     if _rec_log:
         return _rec_log[0][0], _rec_log[0][1], r
     return None, None, r
